@@ -141,7 +141,6 @@ type c07Conn struct {
 	laddr, raddr   ma.Multiaddr
 	limited        bool
 	closeOnce      sync.Once
-	bytesR, bytesW int64
 }
 
 var _ manet.Conn = (*c07Conn)(nil)
@@ -180,7 +179,7 @@ func (c *c07Conn) SetReadDeadline(t time.Time) error  { c.in.setReadDeadline(t);
 func (c *c07Conn) SetWriteDeadline(t time.Time) error { return nil } // writes never block
 
 // Stat makes the connection a limited one when asked to: the upgrader copies it (upgrader.upgrade).
-func (c *c07Conn) Stat() network.ConnStats { return network.ConnStats{Limited: c.limited} }
+func (c *c07Conn) Stat() network.ConnStats { return network.ConnStats{Stats: network.Stats{Limited: c.limited}} }
 
 // ---------- listener ----------
 
@@ -241,8 +240,6 @@ type c07Transport struct {
 }
 
 var _ transport.Transport = (*c07Transport)(nil)
-
-var c07TCP = ma.ProtocolWithCode(ma.P_TCP).Name
 
 func (t *c07Transport) CanDial(addr ma.Multiaddr) bool {
 	_, err := addr.ValueForProtocol(ma.P_TCP)
